@@ -203,3 +203,42 @@ func VC09_Rotation() {
 	rt.Assert(len(rr.backends) == 1 && len(rr.backendMap) == 1, "list and map in step after the changes")
 	rt.Reach("end")
 }
+
+// VC09_Pipelined: two requests back to back on one TCP connection while the message loop lags (or
+// not): the receiving goroutine hands each message over to the loop; nothing is lost, duplicated
+// or shared between the two goroutines without synchronisation.
+func VC09_Pipelined() {
+	rt.RaceMonitor(true)
+	lag := rt.Bool("message-loop-lags")
+	w := newWorld(worldOpts{nBackends: 1, tcpListener: true, holdLoop: lag})
+	conn := fakenet.NewTCPConn(wListenAddr+":5060", "10.0.2.2:40000")
+	t := NewTCPServerTransportWithConn(conn, true, w.p.selfLearnRoute)
+	t.Start(w.p)
+	rt.Quiesce()
+	stream := ""
+	for i := 0; i < 2; i++ {
+		stream += "OPTIONS sip:u@" + wService + " SIP/2.0\r\nVia: SIP/2.0/TCP 10.0.2.2:40000;branch=z9hG4bKq" + itoa(i) + "\r\nFrom: <sip:alice@example.com>;tag=a\r\nTo: <sip:u@" + wService +
+			">\r\nCall-ID: q" + itoa(i) + "\r\nCSeq: 1 OPTIONS\r\nContent-Length: 0\r\n\r\n"
+	}
+	if rt.Bool("one-segment") {
+		conn.Feed([]byte(stream))
+	} else {
+		conn.Feed([]byte(stream[:len(stream)/2]))
+		conn.Feed([]byte(stream[len(stream)/2:]))
+	}
+	rt.Quiesce()
+	if lag {
+		w.startLoop()
+	}
+	n0, n1 := 0, 0
+	for _, out := range w.bs[0].sent {
+		switch refRead(out).first("call-id") {
+		case "q0":
+			n0++
+		case "q1":
+			n1++
+		}
+	}
+	rt.Assert(n0 == 1 && n1 == 1 && len(w.bs[0].sent) == 2, "pipelined on one connection: every request reaches the backend exactly once")
+	rt.Reach("end")
+}
